@@ -69,6 +69,17 @@ class C05(Prop):
             traits = sets[rng.randrange(len(sets))]
             out.append(self.mk(G.relevant_combo(traits, combo), rng.choice(['named', 'tuple', 'variant', 'after-same-type', 'second-variant']),
                                rng.choice(['attr', 'derive']), traits, -1))
+        # the verdict does not depend on explicit `bound(..)` lists either (without `..` they switch the generated bounds
+        # off, not the checks): shared by the list, or on every derived trait
+        stop = [sx.b_pred(sx.wty(sx.tid('u8'), [sx.tb_trait(['Copy'])]))]
+        for k in range(600 if tier == 'quick' else 40000):
+            combo = combos[rng.randrange(len(combos))]
+            traits = sets[rng.randrange(len(sets))]
+            how = k % 3
+            bnd = [[], stop, None][how]
+            targs = {t: ([], False) for t in traits} if how == 2 else None
+            out.append(self.mk(G.relevant_combo(traits, combo), rng.choice(['named', 'tuple', 'variant', 'after-same-type']),
+                               rng.choice(['attr', 'derive']), traits, -1, bnd=bnd, targs=targs))
         # misplaced arguments
         mis = []
         for a, arg, where, mode in itertools.product(G.ATTRS, ['ignore', 'reverse', 'key', 'by'], ['type', 'variant'],
@@ -99,7 +110,7 @@ class C05(Prop):
         return out
 
     @staticmethod
-    def mk(combo, shape, mode, traits, ci):
+    def mk(combo, shape, mode, traits, ci, bnd=None, targs=None):
         named = shape != 'tuple'
         variants = [(named, [('u8', combo)])]
         is_enum = shape in ('variant', 'second-variant')
@@ -109,8 +120,9 @@ class C05(Prop):
             variants = [(False, [('u8', {})]), (ci % 3 != 0, [('u8', combo)])]
         elif is_enum:
             variants.append((False, []))
-        req = G.make_item('E' if is_enum else 'X', variants, is_enum, traits, mode)
-        feats = [shape, mode] + ['%s(%s)' % (a, o) for a, o in sorted(combo.items()) if o != '-']
+        req = G.make_item('E' if is_enum else 'X', variants, is_enum, traits, mode, bnd=bnd, targs=targs)
+        feats = [shape, mode] + ['%s(%s)' % (a, o) for a, o in sorted(combo.items()) if o != '-'] + \
+                (['shared-bound'] if bnd is not None else []) + (['trait-bound'] if targs else [])
         return (req, dict(features=tuple(feats), traits=list(traits), combo=combo,
                           nontrivial=any(o != '-' for o in combo.values())))
 
